@@ -35,9 +35,10 @@ let () = each_line (fun l ->
         let (r, _, i) = read_out () in
         if not (gate_reindex h addf a d r) then fail "image";
         if not (ta_set_eq a i) then fail "operand_changed";
+        if peek out = Some "X" then begin expect out "X"; let x = read_ta out in if not (ta_set_eq d x) then fail "dst_donor_changed" end;
         let mr = flat (reindex_aut h addf (of_ta a) (of_ta d)) in
         if not (same_multiset mr.rules r.rules) then drift := "nested_model" :: !drift;
-        flags a h (states a) ^ (if v = "RD" && d.rules <> [] then " into_nonempty_dst" else "") ^ (if addf then "" else " nofinals")
+        flags a h (states a) ^ (if v = "RD" && d.rules <> [] then " into_nonempty_dst" else "") ^ (if v = "RD" && a.rules <> [] && ta_set_eq a d then " dst_is_copy_of_src" else "") ^ (if addf then "" else " nofinals")
       | "RW" ->
         let a = read_ta t in let pre = read_map t in let _base = num t in
         let (r, m, i) = read_out () in
